@@ -238,6 +238,13 @@ func (d *Decoder) decompress(claimedUncompressedSize int, rd io.Reader) (decompr
 	if err != nil {
 		return nil, fmt.Errorf("error decompressing payload: %w", err)
 	}
+	// The body must inflate to exactly the claimed size and the zlib stream must be
+	// complete, as vanilla and Velocity require; do not silently truncate.
+	var extra [1]byte
+	if n, err := io.ReadFull(d.zrd, extra[:]); n != 0 || err != io.EOF {
+		return nil, errs.NewSilentErr("compressed payload does not inflate to exactly the claimed size %d",
+			claimedUncompressedSize)
+	}
 	return decompressed, d.zrd.Close()
 }
 
